@@ -131,6 +131,22 @@ class Streams:
         b = self.bban_with_bank(cc) if with_bank else self.bban(cc)
         return cc + iban_check_digits(cc, b.upper()) + b
 
+    def iban_with_dd(self, cc: str, dd: str) -> str | None:
+        """A valid IBAN of `cc` whose check digits are exactly `dd` (found by varying the last two
+        numeric positions of a random conforming BBAN); None if the search fails."""
+        cls = [k for n, k in self.spec_items(cc) for _ in range(n)]
+        nums = [i for i, k in enumerate(cls) if k == "n"][-2:]
+        if len(nums) < 2:
+            return None
+        for _ in range(4):
+            b = list(self.bban(cc).upper())
+            for v in range(100):
+                b[nums[0]], b[nums[1]] = "%02d" % v
+                s = "".join(b)
+                if iban_check_digits(cc, s) == dd:
+                    return cc + dd + s
+        return None
+
     # ---- mutations
     def mutate(self, s: str) -> str:
         r = self.r
